@@ -139,6 +139,18 @@ v("break-c06-like-for-any-op", "break", "C06", "CTOR-SHAPE", [(E, "\tif op == Eq
 v("break-c04-list-params-prepend", "break", "C04", "PH-LINEAR", [(B, "\t\t\tparams = append(params, eparams...)", "\t\t\tparams = append(eparams, params...)")])
 v("keep-wrapper-plain-field", "keep", "all", "", [(R, "return expr.Eq(expr.Column(field), lit)", "return expr.Eq(field, lit)")], "the general constructor wraps a string field of a column operator in a Column itself")
 
+v("break-c16-hash-is-word", "break", "C16", "LEX-DISPATCH", [(L, "\treturn r == '_' || unicode.IsLetter(r) || unicode.IsDigit(r)", "\treturn r == '_' || r == '#' || unicode.IsLetter(r) || unicode.IsDigit(r)")])
+v("break-c06-bang-symbol", "break", "C06", "LEX-DISPATCH", [(L, "\t'<': TLess,\n", "\t'<': TLess,\n\t'!': TNot,\n")])
+v("keep-symbols-switch", "keep", "all", "", [
+    (L, "\tcase isSymbol(r):\n\t\treturn l.emit(symbols[r])", "\tcase isSymbol(r):\n\t\treturn l.emit(symbolType(r))"),
+    (L, "// isSymbol checks whether the run is one of the reserved symbols", "// symbolType returns the token type of a reserved symbol\nfunc symbolType(r rune) TokType {\n\tswitch r {\n\tcase '(':\n\t\treturn TLParen\n\tcase ')':\n\t\treturn TRParen\n\tcase '[':\n\t\treturn TLSquare\n\tcase ']':\n\t\treturn TRSquare\n\tcase '{':\n\t\treturn TLCurly\n\tcase '}':\n\t\treturn TRCurly\n\tcase ':':\n\t\treturn TColon\n\tcase '+':\n\t\treturn TPlus\n\tcase '=':\n\t\treturn TEqual\n\tcase '>':\n\t\treturn TGreater\n\tcase '~':\n\t\treturn TTilde\n\tcase '^':\n\t\treturn TCarrot\n\tcase '<':\n\t\treturn TLess\n\t}\n\treturn TErr\n}\n\n// isSymbol checks whether the run is one of the reserved symbols"),
+], "symbol token type through a switch helper instead of the table lookup (isSymbol still uses the table)")
+
+v("keep-compare-factory", "keep", "all", "", [
+    (RF, "func greater(left, right string) (string, error) {\n\treturn fmt.Sprintf(\"%s > %s\", left, right), nil\n}", "func compareWith(op string) RenderFN {\n\treturn func(left, right string) (string, error) {\n\t\treturn fmt.Sprintf(\"%s %s %s\", left, op, right), nil\n\t}\n}"),
+    (B, "expr.Greater:   greater,", "expr.Greater:   compareWith(\">\"),"),
+], "a comparison render function produced by a closure factory bound to a constant operator string")
+
 def main():
     os.makedirs(OUT, exist_ok=True)
     for f in os.listdir(OUT):
